@@ -34,6 +34,8 @@ ENTRY_SUFFIXES = (
     "::json::parse::parse_json_str", "::json::parse::parse_json_iter", "::utils::csv::read_csv_iter", "::helpers::csv::read_csv_file",
     "::vpl::parser::parse_vpl", "PipelineFactory::operation_from_vpl", "VectorTile::from_blob", "::getters::get_reader",
     "Reader::open_path", "Reader::open_reader", "TileJSON::try_from_blob_or_default",
+    # the lazy half of decoding a vector tile: geometries and properties of a decoded feature (both have an error channel)
+    "VectorTileLayer::to_features", "VectorTileFeature::to_feature", "VectorTileFeature::to_geometry", "VectorTileFeature::decode_properties",
 )
 ENTRY_TRAIT_ITEMS = ("TilesReaderTrait::get_tile_data", "OperationTrait::get_tile_data")
 STD_GENERIC = ("core::cmp::", "core::convert::", "core::clone::", "core::fmt::", "core::hash::", "core::default::", "core::ops::",
@@ -567,6 +569,44 @@ def rules(ck, P):
                 ck.violation(rule, s.key, "`%s` on integers decoded from the input with no dominating bound and no checked/saturating op: overflow panics "
                              "(overflow-checks on) or wraps into an inconsistent range%s" % (s.desc, note), s.loc)
     ck.note("R-ALLOC/R-ARITH: %d decoded-value sites examined" % nd)
+
+    # ---- R-ALLOC|loop: a loop that runs a DECODED number of times may only grow a collection on paths that also consume input.
+    # `for _ in 0..count { x = reader.read()?; v.push(x) }` ends with a read error when the input runs out, so memory stays
+    # proportional to the input; a path through the body that pushes without reading (a command without parameters, a default
+    # entry) lets a ten-byte count of 2^61 allocate without bound.
+    from . import mvt as _mvt
+    n_loops = 0
+    for fq in sorted(seen):
+        b = P.fn(fq)
+        if b is None:
+            continue
+        lets = {y["pat"]["hid"]: y["init"] for y in ir.walk_nodes(b["body"]) if y.get("k") == "let" and "init" in y and y["pat"].get("k") == "bind"}
+
+        def decoded(e, depth=0):
+            e = ir.strip(e)
+            if depth > 4:
+                return False
+            if ir.contains(e, lambda z: z.get("k") == "mcall" and (z.get("name") or "").startswith("read_") and "io::value_reader" in (z.get("q") or "")):
+                return True
+            return any(decoded(lets[z["hid"]], depth + 1) for z in ir.walk_nodes(e) if z.get("k") == "path" and z.get("r") == "local" and z.get("hid") in lets)
+        for n in ir.walk_nodes(b["body"]):
+            if n.get("k") != "for":
+                continue
+            it = ir.strip(n["iter"])
+            if not (it.get("k") == "struct" and "Range" in (it.get("q") or "")):
+                continue
+            ends = [f["e"] for f in it.get("fields", ()) if f.get("name") == "end"]
+            if not ends or not decoded(ends[0]):
+                continue
+            n_loops += 1
+            is_read = lambda y: y.get("k") == "mcall" and (y.get("name") or "").startswith(("read_", "get_pbf_sub_reader", "get_sub_reader")) and "io::value_reader" in (y.get("q") or "")
+            is_grow = lambda y: y.get("k") == "mcall" and y.get("name") in ("push", "push_back", "extend", "extend_from_slice", "insert", "push_str") and (y.get("q") or "").startswith(("alloc::", "std::collections"))
+            cnt = _mvt.exit_counts(P, {"body": n["body"]}, lambda y: 1000 if is_grow(y) else (1 if is_read(y) else None))
+            bad = sorted(t for t in cnt if t >= 1000 and t % 1000 == 0)
+            ck.check(not bad, "R-ALLOC", "%s|loop|%s" % (fq, ir.place_str(ends[0]) or "count"), "the loop over a decoded count grows a collection only on paths that also read from the input",
+                     "a loop that runs a decoded number of times (`%s`) has a path that grows a collection without consuming input: memory is not bounded by the input size (a few bytes request up to 2^61 entries)" %
+                     (ir.place_str(ends[0]) or "count"), ir.loc(n))
+    ck.anchor("R-ALLOC", "loops over a decoded count", n_loops, 1)
 
     # ---- R-REC
     rtable = {tuple(e["members"]): e for e in census.load_table("recursion.json").values()} if False else _load_rec()
